@@ -87,6 +87,11 @@ def semantic_faults(r):
         ("module-argument-type:call-result", ("copy", ("sym", "modp"), [("v", ("call", ("sym", "idf"), [("str", "w")]))])),
         ("module-argument-type:literal", ("copy", ("sym", "modp"), [("v", ("str", "w"))])),
         ("module-argument-type:selected-operand", ("copy", ("sym", "modp"), [("v", ("sel", ("sym", "rec2"), ("f", "s")))])),
+        # a value that does not satisfy a constraint given by a NAME bound earlier (exemplar or named constraint)
+        ("let-constraint-mismatch:named-exemplar", ("raw", ["seven", "=", "\"w\""])),
+        ("let-constraint-mismatch:named-exemplar-and-value", ("raw", ["seven", "=", "word"])),
+        ("let-constraint-mismatch:named-constraint", ("raw", ["cint", "=", "\"w\""])),
+        ("let-constraint-mismatch:tuple-exemplar", ("raw", ["rec", "=", "{", "a", "=", "\"w\"", "}"])),
         # a fault inside the expression of a format template
         ("unknown-name:in-format-template", ("fmt1", [("lit", "v="), ("e", ("sym", "nope"))], ("tuple", [("a", ("int", 1))]))),
         ("missing-field:in-format-template", ("fmt1", [("e", ("sel", ("sym", "item"), ("f", "zz")))], ("tuple", [("a", ("int", 1))]))),
@@ -184,6 +189,7 @@ def build_case(probe, r, nvalid, kind, ftoks, host, pos):
                ["let", "rec", "=", "{", "a", "=", "1", "}", ";"], ["let", "lst", "=", "[", "1", "]", ";"],
                ["let", "rec2", "=", "{", "s", "=", "\"w\"", ",", "n", "=", "7", "}", ";"], ["let", "lst2", "=", "[", "\"w\"", ",", "7", "]", ";"],
                ["let", "modw", "=", "module", "{", "}", "=>", "(", "r", ")", "{", "let", "r", "=", "\"w\"", ";", "}", ";"],
+               ["constraint", "cint", "=", "in", "0", "..", "10", ";"],
                ["let", "modp", "=", "module", "{", "v", "=", "1", "}", "=>", "(", "r", ")", "{", "let", "r", "=", "mod", ".", "v", ";", "}", ";"]]
     for attempt in range(8):
         stmts, _ = progs.gen_program(r, depth=2, nstmts=max(2, nvalid), p_bad=0.0, ascii_only=True)
@@ -201,7 +207,10 @@ def build_case(probe, r, nvalid, kind, ftoks, host, pos):
         pr.stmt(s)
         valid.append([t for t in pr.toks if not isinstance(t, tuple)])
     valid = valid[:nvalid]
-    fstmt, cstmt = host_tokens(host, "flt", ftoks, r)
+    if kind.startswith("let-constraint"):
+        fstmt, cstmt = ["let", "flt", "::"] + ftoks + [";"], None
+    else:
+        fstmt, cstmt = host_tokens(host, "flt", ftoks, r)
     if kind.startswith("syntax-run-on"):
         assert host == "bare" and fstmt[-1] == ";"
         fstmt = fstmt[:-1]
@@ -307,7 +316,7 @@ def task(args):
                 kind, ftoks = r.choice(syn)
                 issyn = True
             host = r.choice(HOSTS)
-            if kind.startswith("syntax-run-on"):
+            if kind.startswith("syntax-run-on") or kind.startswith("let-constraint"):
                 host = "bare"
             nvalid = r.randint(1, 10)
             pos = r.randint(0, nvalid)
